@@ -19,8 +19,8 @@ from spec import rv32im as S
 
 
 # ------------------------------------------------------------------------------------ A. single instruction
-def single_instruction(mn, e_builder=None, prepare=None):
-    st, regs0 = havoc_state("five_stage_pipeline")
+def single_instruction(mn, e_builder=None, prepare=None, detect=True):
+    st, regs0 = havoc_state("five_stage_pipeline", detect)
     if prepare is not None:
         prepare(st, regs0)
     ins, rd, rs1, rs2, imm = build(mn)
